@@ -845,7 +845,7 @@ Proof.
   assert (He : e < 2 ^ 60) by (apply encoding_inv in Ev as [[_ ->]|[_ ->]]; apply consts_bound).
   destruct (to_chars_total ((v :: r) ++ create_checksum hrp (v :: r) e)) as [cs TC].
   { apply Forall_app; split; [exact F | apply checksum_symbols_lt]. }
-  rewrite TC. eexists; split; [reflexivity|].
+  rewrite TC. eexists; split; [reflexivity|]. change (hrp ++ [sep] ++ cs) with (hrp ++ sep :: cs).
   rewrite (decode_canon _ _ _ TC LH). unfold decode_spec.
   rewrite app_length, checksum_length, P. cbn [negb].
   destruct (Nat.eqb_spec (length (v :: r) + 12) 12) as [E|_]; [cbn [length] in E; lia|].
@@ -924,11 +924,14 @@ Lemma char_ok_lower c : char_ok (to_lower c) = char_ok c. Proof. destruct c; ref
 Lemma forallb_map {A B} (f : A -> B) (p : B -> bool) l : forallb p (map f l) = forallb (fun x => p (f x)) l.
 Proof. induction l as [|a l IH]; cbn; [reflexivity | rewrite IH; reflexivity]. Qed.
 
+Lemma forallb_ext' {A} (p q : A -> bool) l : (forall x, p x = q x) -> forallb p l = forallb q l.
+Proof. intro H. induction l as [|a l IH]; cbn; [reflexivity | rewrite H, IH; reflexivity]. Qed.
+
 Lemma decode_generic_lower s : decode_generic (map to_lower s) =
   if len_bad s then GErr else if negb (forallb char_ok s) then GErr else dg_rest (map to_lower s).
 Proof.
   rewrite decode_generic_unfold. unfold len_bad, case_bad. rewrite map_length.
-  rewrite forallb_map, (forallb_ext _ char_ok char_ok_lower) by idtac.
+  rewrite forallb_map, (forallb_ext' _ char_ok s char_ok_lower).
   rewrite !map_map, (map_ext _ _ to_lower_idem), bytes_eqb_refl. reflexivity.
 Qed.
 
@@ -936,7 +939,7 @@ Lemma decode_generic_upper s : decode_generic (map to_upper s) =
   if len_bad s then GErr else if negb (forallb char_ok s) then GErr else dg_rest (map to_lower s).
 Proof.
   rewrite decode_generic_unfold. unfold len_bad, case_bad. rewrite map_length.
-  rewrite forallb_map, (forallb_ext _ char_ok char_ok_upper) by idtac.
+  rewrite forallb_map, (forallb_ext' _ char_ok s char_ok_upper).
   rewrite !map_map, (map_ext _ _ to_upper_idem), (map_ext _ _ to_lower_upper), bytes_eqb_refl, andb_false_r. reflexivity.
 Qed.
 
@@ -960,7 +963,7 @@ Definition is_upper_letter (c : byte) : bool := (65 <=? n8 c) && (n8 c <=? 90).
 Lemma map_fix_in {A} (f : A -> A) l : map f l = l -> forall x, In x l -> f x = x.
 Proof.
   induction l as [|a l IH]; intros E x Hx; [destruct Hx|]. cbn [map] in E. inversion E as [[E1 E2]].
-  destruct Hx as [<-|Hx]; [exact E1 | rewrite E1, E2; apply IH; assumption].
+  destruct Hx as [<-|Hx]; [exact E1 | apply IH; assumption].
 Qed.
 
 Lemma upper_letter_moves c : is_upper_letter c = true -> to_lower c <> c.
